@@ -109,11 +109,88 @@ class FuncCtx:
                 if l["kind"] == "DeclRefExpr":
                     self.addr.add(l["ref"]["id"])
 
+        # locals declared without an initialiser and assigned exactly once, unconditionally, in the block that declares
+        # them (a temporary or the result variable of an inlined helper); pointer locals initialised with &local and
+        # used only as `*p = v` (the out-parameter of an inlined helper) count as assignments to that local
+        self.assign1 = {}
+        self._late_defs(func.body)
+
+    def _late_defs(self, body):
+        ptr_to = {}
+        for vid, ini in self.inits.items():
+            if ini is None:
+                continue
+            i0 = strip(ini, casts=True)
+            if i0["kind"] == "UnaryOperator" and i0.get("opcode") == "&" and self.writes.get(vid, 0) == 0 and vid not in self.addr:
+                t = strip(kids(i0)[0], casts=True)
+                if t["kind"] == "DeclRefExpr" and t["ref"].get("kind") == "VarDecl":
+                    ptr_to[vid] = t["ref"]["id"]
+        # every use of such a pointer must be `*p` as the target of a plain assignment
+        uses_ok = {p_: True for p_ in ptr_to}
+        store_targets = set()
+        for n in walk(body):
+            if n["kind"] == "BinaryOperator" and n.get("opcode") == "=":
+                l = strip(kids(n)[0], casts=True)
+                if l["kind"] == "UnaryOperator" and l.get("opcode") == "*":
+                    p_ = strip(kids(l)[0], casts=True)
+                    if p_["kind"] == "DeclRefExpr" and p_["ref"]["id"] in ptr_to:
+                        store_targets.add(id(p_))
+        for n in walk(body):
+            if n["kind"] == "DeclRefExpr" and n["ref"].get("id") in ptr_to and id(n) not in store_targets:
+                uses_ok[n["ref"]["id"]] = False
+        out_ptr = {p_: q for p_, q in ptr_to.items() if uses_ok[p_]}
+        addr_elsewhere = set()
+        for n in walk(body):
+            if n["kind"] == "UnaryOperator" and n.get("opcode") == "&":
+                t = strip(kids(n)[0], casts=True)
+                if t["kind"] == "DeclRefExpr":
+                    # is this & the initialiser of an out pointer?
+                    if not any(self.inits.get(p_) is not None and any(y is n for y in walk(self.inits[p_])) for p_ in out_ptr):
+                        addr_elsewhere.add(t["ref"]["id"])
+        counts = {}
+        cands = {}
+        for blk in walk(body):
+            if blk["kind"] != "CompoundStmt":
+                continue
+            declared = set()
+            for s_ in kids(blk):
+                if s_["kind"] == "DeclStmt":
+                    for d in kids(s_):
+                        if d["kind"] == "VarDecl":
+                            declared.add(d["id"])
+                tgt = None
+                if s_["kind"] == "BinaryOperator" and s_.get("opcode") == "=":
+                    l = strip(kids(s_)[0], casts=True)
+                    if l["kind"] == "DeclRefExpr":
+                        tgt = l["ref"]["id"]
+                    elif l["kind"] == "UnaryOperator" and l.get("opcode") == "*":
+                        p_ = strip(kids(l)[0], casts=True)
+                        if p_["kind"] == "DeclRefExpr" and p_["ref"]["id"] in out_ptr:
+                            tgt = out_ptr[p_["ref"]["id"]]
+                if tgt is not None and tgt in declared:
+                    cands.setdefault(tgt, kids(s_)[1])
+        # total number of writes to each candidate (direct + through out pointers)
+        for n in walk(body):
+            if n["kind"] == "BinaryOperator" and n.get("opcode") == "=":
+                l = strip(kids(n)[0], casts=True)
+                if l["kind"] == "UnaryOperator" and l.get("opcode") == "*":
+                    p_ = strip(kids(l)[0], casts=True)
+                    if p_["kind"] == "DeclRefExpr" and p_["ref"]["id"] in out_ptr:
+                        q = out_ptr[p_["ref"]["id"]]
+                        counts[q] = counts.get(q, 0) + 1
+        for vid, rhs in cands.items():
+            total = self.writes.get(vid, 0) + counts.get(vid, 0)
+            if self.inits.get(vid) is None and total == 1 and vid not in addr_elsewhere:
+                self.assign1[vid] = rhs
+
     def single_def(self, ref_id):
-        """Defining expression of a local that is initialised once and never written again."""
+        """Defining expression of a local that is initialised once and never written again (or declared without an
+        initialiser and assigned exactly once, unconditionally, in its own block)."""
         if ref_id in self.inits and self.inits[ref_id] is not None \
                 and self.writes.get(ref_id, 0) == 0 and ref_id not in self.addr:
             return self.inits[ref_id]
+        if ref_id in self.assign1:
+            return self.assign1[ref_id]
         return None
 
     def resolve(self, n):
